@@ -102,6 +102,19 @@ Theorem C08_feed_with_snapshot_is_filter : forall (b : builder) (st : store) (nf
   feed (needed_pcaps b (Some s) nf st) newP = filter (keepb s) (feed (needed_pcaps b None nf st) newP).
 Proof. exact feed_with_snapshot_is_filter. Qed.
 
+(* (1a') the oldest time of an import BATCH is the minimum over ALL captures of the batch (whatever their order inside the
+   batch); the snapshot choice and transparency depend on it *)
+Theorem C08_batch_oldest_is_min_over_all_captures : forall (i0 : pcapinfo) rest i,
+  In i (i0 :: rest) -> fold_left (fun m i => N.min m (pi_min i)) (i0 :: rest) (pi_min i0) <= pi_min i.
+Proof. exact batch_oldest_is_min_over_all_captures. Qed.
+
+Theorem C08_snapshot_choice_with_first_capture_only_refuted :
+  let snaps := [mkSnap 50 []; mkSnap 1000 []] in
+  let batch := [mkPcap 3 1200 1300; mkPcap 1 100 200] in
+  option_map sn_ts (best_snapshot snaps (fold_left (fun m i => N.min m (pi_min i)) batch 1200) None) = Some 50 /\
+  option_map sn_ts (best_snapshot snaps 1200 None) = Some 1000.
+Proof. exact snapshot_choice_with_first_capture_only_refuted. Qed.
+
 (* (1b') PacketTimestampMin/Max of a capture are the minimum/maximum over ALL its records (Import.info_of = readPackets);
    the replay order depends on it: with the first record's time a capture with unsorted records is loaded too late *)
 Theorem C08_capture_info_is_min_max : forall f l p, In p l -> pi_min (info_of f l) <= p_ts p /\ p_ts p <= pi_max (info_of f l).
